@@ -17,7 +17,7 @@ def run_check(tier):
     quick = tier == "quick"
     r = vlib.tlc("MC_MsgPackFormat", timeout=900)
     chk.add_tlc("MC_MsgPackFormat", r)
-    sc = mp.gen("MC_LoadScript", {"Mode": '"typed"', "MaxOps": 2 if quick else 400, "Widths": "{0, 1, 2, 3, 4}", "Pads": "{0}"},
+    sc = mp.gen("MC_LoadScript", {"Mode": '"typed"', "MaxOps": 2 if quick else 400, "Widths": "{0, 1, 2, 3, 4, 5}", "Pads": "{0}"},
                 ["Export"], "typed", chk, timeout=3000, xmx="8g")
     pairs = mp.replay(sc, ["mem", "sstream"] if quick else ["mem", "sstream", "short1"], 8, "t8")
     mp.judge(chk, pairs, "MsgPack typed load")
